@@ -280,6 +280,9 @@ func (x *Exec) nativeMethod(n *Native, name string, args []Value) Value {
 			return TupleV{x.timeValue(c.deadline), TTrue}
 		}
 	}
+	if n.Kind == "rtype" {
+		return x.rtypeMethod(n.Obj.(types.Type), name, args)
+	}
 	x.unsupported("native method %s.%s", n.Kind, name)
 	return nil
 }
@@ -478,6 +481,3 @@ func sortInts(a []int) {
 	}
 }
 
-// ---------- reflect (minimal; extended on demand) ----------
-
-func registerReflect() {}
